@@ -143,6 +143,14 @@ func discharge(o *Obligation, dir string, timeoutS int) {
 				for _, s := range solvers {
 					nruns++
 					go func(s solverSpec) {
+						// the second encoding only starts if the plain one has not answered quickly (saves CPU: most
+						// obligations are decided in well under a second)
+						select {
+						case <-ctx.Done():
+							ch <- solveResult{solver: s.name + "+muluf", status: "unknown", out: "not started"}
+							return
+						case <-time.After(2500 * time.Millisecond):
+						}
 						r := runSolver(ctx, s, timeoutS, ufFile)
 						r.solver += "+muluf"
 						if r.status == "sat" {
